@@ -12,6 +12,7 @@ import hashlib
 import json
 import os
 import shutil
+import struct
 import subprocess
 import sys
 
@@ -104,10 +105,95 @@ def build_fixed_pool(d):
                 fo.write(blob)
         pool['s:' + k] = dict(path=s, fmt=None, kind=k, suffix=True)
         pool['n:' + k] = dict(path=n, fmt=None, kind=k, suffix=False)
+    # a little-endian uamiv file: readable only when the format is named
+    # and endian='little' is passed
+    with open(sp['uamiv'], 'rb') as fi:
+        le = uamiv_to_little_endian(fi.read())
+    lep = os.path.join(d, 'little_endian_uamiv.dat')
+    with open(lep, 'wb') as fo:
+        fo.write(le)
+    pool['le:uamiv'] = dict(path=lep, fmt='uamiv', kind='le_uamiv',
+                            suffix=False, kw=dict(format='uamiv',
+                                                  endian='little'))
+    # a file of the dummy format registered in mid-session
+    dp = os.path.join(d, 'record.c15reca')
+    with open(dp, 'wb') as fo:
+        fo.write(b'C15R' + bytes(range(16)))
+    pool['s:c15rec'] = dict(path=dp, fmt=None, kind='c15rec', suffix=True,
+                            needs_dummy=True)
     gdir = os.path.dirname(sp['bpch'])
     for t in ('tracerinfo.dat', 'diaginfo.dat'):
         shutil.copy(os.path.join(gdir, t), os.path.join(d, t))
     return pool
+
+
+def uamiv_to_little_endian(buf):
+    """byte-swap a big-endian uamiv file word by word, leaving the character
+    words (one character + three blanks each) untouched"""
+    from ..ref import fortran
+    out = []
+    recs = fortran.payloads(buf, '>')
+    nspec = struct.unpack('>i', recs[0][(70 + 1) * 4:(70 + 2) * 4])[0]
+
+    def swap(b, keep=()):
+        w = [b[i:i + 4] for i in range(0, len(b), 4)]
+        return b''.join(x if i in keep else x[::-1] for i, x in enumerate(w))
+    out.append(swap(recs[0], keep=set(range(70))))
+    out.append(swap(recs[1]))
+    out.append(swap(recs[2]))
+    out.append(recs[3])                      # species names: characters
+    for rec in recs[4:]:
+        if len(rec) == 16:                   # time record
+            out.append(swap(rec))
+        else:                                # ione, name(10 chars), data
+            out.append(swap(rec, keep=set(range(1, 11))))
+    assert len(recs[3]) == 40 * nspec
+    return fortran.records(out, '<')
+
+
+_DUMMY = {}
+
+
+def dummy_readers():
+    """two overlapping readers (B subclasses A, both claim files starting
+    with the magic bytes) used to model registration in mid-session; they are
+    created once and taken out of the registry again - a history step
+    registers them explicitly"""
+    if not _DUMMY:
+        from PseudoNetCDF import PseudoNetCDFFile
+        from PseudoNetCDF import _getreader
+
+        class c15reca(PseudoNetCDFFile):
+            @classmethod
+            def isMine(cls, path, *args, **kwds):
+                try:
+                    with open(path, 'rb') as fi:
+                        return fi.read(4) == b'C15R'
+                except Exception:
+                    return False
+
+            def __init__(self, path, *args, **kwds):
+                with open(path, 'rb') as fi:
+                    raw = fi.read()
+                self.createDimension('n', len(raw) - 4)
+                v = self.createVariable('payload', 'B', ('n',))
+                v[:] = np.frombuffer(raw[4:], dtype='u1')
+
+        class c15recb(c15reca):
+            pass
+        _getreader._readers[:] = [
+            (k, v) for k, v in _getreader._readers
+            if v is not c15reca and v is not c15recb]
+        _DUMMY['a'] = c15reca
+        _DUMMY['b'] = c15recb
+    return _DUMMY['a'], _DUMMY['b']
+
+
+def register_dummies():
+    from PseudoNetCDF._getreader import registerreader
+    a, b = dummy_readers()
+    registerreader('c15reca', a)
+    registerreader('c15recb', b)
 
 
 def digest(f):
@@ -124,7 +210,10 @@ def digest(f):
             h.update(mask.tobytes())
         h.update(np.ascontiguousarray(data).tobytes())
         vs[k] = h.hexdigest()
-    return dict(cls=type(f).__module__ + '.' + type(f).__name__,
+    modname = type(f).__module__
+    if modname == '__main__':     # the reference process runs this module
+        modname = 'vf.props.c15'  # as a script
+    return dict(cls=modname + '.' + type(f).__name__,
                 dims=dims, vars=vs)
 
 
@@ -169,6 +258,13 @@ def fixed_pool():
         raise HarnessError('fresh-interpreter reference failed: %s' %
                            out.stderr[-2000:])
     refs = json.loads(out.stdout.strip().splitlines()[-1])
+    out2 = subprocess.run(
+        [sys.executable, '-W', 'ignore', '-m', 'vf.props.c15', '--ref-dummy',
+         d], capture_output=True, text=True, env=env)
+    if out2.returncode != 0:
+        raise HarnessError('fresh-interpreter dummy reference failed: %s' %
+                           out2.stderr[-2000:])
+    refs['s:c15rec'] = json.loads(out2.stdout.strip().splitlines()[-1])
     for k in pool:
         pool[k]['ref'] = refs[k]
     _POOL[d] = pool
@@ -190,7 +286,18 @@ def _main_ref(d):
     for k, p in pool.items():
         libstate.reset()    # every reference is taken with an empty history
         refs[k] = probe(p)
+    libstate.reset()
+    refs['le:uamiv'] = probe(os.path.join(d, 'little_endian_uamiv.dat'),
+                             format='uamiv', endian='little')
     print(json.dumps(refs))
+
+
+def _main_ref_dummy(d):
+    """reference for the dummy format in an interpreter of its own: the
+    readers are registered before ANY open of the process"""
+    libstate.check_repo()
+    register_dummies()
+    print(json.dumps(probe(os.path.join(d, 'record.c15reca'))))
 
 
 # ------------------------------------------------------------------ strategy
@@ -220,8 +327,16 @@ def cases(draw, tier='quick'):
             # the scratch path work.dat is REWRITTEN with the content of
             # another pool file and probed: same path, different file
             h = 'w=' + draw(st.sampled_from(REWRITE_KINDS))
+        elif c == 4 and draw(st.booleans()):
+            h = draw(st.sampled_from(['le:uamiv', 'le:uamiv', 'reg', 'reg',
+                                      's:c15rec', 's:uamiv', 'n:uamiv']))
         else:
             h = draw(st.sampled_from(POOLKEYS))
+        if h == 'reg':
+            # registration in mid-session, followed (now or later) by a probe
+            # of the file whose suffix names the newly registered reader
+            hist.append('reg')
+            h = 's:c15rec'
         if draw(st.integers(0, 4)) == 0:
             h += '|P'       # hand the path over as pathlib.Path, not str
         hist.append(h)
@@ -303,9 +418,16 @@ def check_case(case):
         nt = False
         workpath = os.path.join(cdir, 'work.dat')
         touched = []
+        registered = [False]
         for i, step in enumerate(case['history']):
             aspath = step.endswith('|P')
             key = step[:-2] if aspath else step
+            if key == 'reg':
+                # two overlapping readers are registered in mid-session
+                register_dummies()
+                registered[0] = True
+                r.label('mid-session-registration')
+                continue
             if key.startswith('w='):
                 # rewrite the scratch path with another file's content; the
                 # expected result is that content's neutral-name reference
@@ -321,7 +443,15 @@ def check_case(case):
                 r.label('pathlike-argument')
             if not e['suffix'] and e['kind'] in AMBIGUOUS and seen_suffix:
                 nt = True
-            got = probe(e['path'], aspath=aspath)
+            if e.get('needs_dummy') and not registered[0]:
+                # the dummy format is only judged once its readers are
+                # registered (before that the outcome is that of an unknown
+                # file, which the reference does not describe)
+                continue
+            if e.get('kw'):
+                r.label('explicit-endian-open')
+                nt = True
+            got = probe(e['path'], aspath=aspath, **(e.get('kw') or {}))
             d = compare(e['ref'], got)
             if d is not None:
                 prior = [x for x in case['history'][:i]]
@@ -347,8 +477,8 @@ def check_case(case):
         # the history touched
         for key in sorted(set(touched)):
             e = pool[key]
-            if e['fmt'] is None:
-                r.label('broken-file-open')
+            if e['fmt'] is None or e.get('kw'):
+                r.label('broken-file-open' if e['fmt'] is None else 'kw-open')
                 continue
             libstate.reset()
             auto = e['ref']
@@ -387,3 +517,5 @@ def check_case(case):
 if __name__ == '__main__':
     if len(sys.argv) == 3 and sys.argv[1] == '--ref':
         _main_ref(sys.argv[2])
+    if len(sys.argv) == 3 and sys.argv[1] == '--ref-dummy':
+        _main_ref_dummy(sys.argv[2])
